@@ -306,6 +306,8 @@ def r7_reanchor_at_gs(ctx):
     the same type would otherwise be walked from the control map, which has no transaction sets)"""
     for mod, qual, target in (('x12context', 'X12ContextReader.iter_segments', 'self.x12_map_node'), ('x12n_document', 'x12n_document', 'node')):
         fn = ctx.func(mod, qual)
+        if target == 'node':
+            target = A.current_node_var(fn) or 'node'
         g = ctx.cfg(fn)
         arms = [(lab, body, node) for lab, body, extra, node in
                 A.branch_chain_all(fn, A.name_or_call_pred('seg_id', 'seg.get_seg_id()')) if lab == 'GS'
